@@ -502,7 +502,7 @@ func (e *Engine) writeEvidence(results []*EntryResult, tier string, seed int64, 
 			"violating_paths": len(r.Violations), "reached": reached, "params": e.effectiveParams(r.Entry),
 			"exhaustive_within_bounds": r.Exhaustive, "seconds": r.Secs, "interpreted_steps": r.Steps,
 			"max_decisions_on_a_path": r.MaxDecisions, "map_order_forked": r.Entry.MapOrder,
-			"schedule_exploring": r.Entry.Exploring, "context_switch_budget": r.Entry.CS, "note": r.Entry.Note,
+			"schedule_exploring": r.Entry.Exploring, "forced_schedules_blocked_forever(infeasible)": r.Deadlocks, "context_switch_budget": r.Entry.CS, "note": r.Entry.Note,
 			"solver_unknown_feasibility_answers": r.Unknowns,
 		})
 	}
@@ -540,6 +540,9 @@ func (e *Engine) writeEvidence(results []*EntryResult, tier string, seed int64, 
 	}
 	for from, to := range e.cfg.Redirects {
 		tb = append(tb, "redirected to harness function: "+from+" -> "+to)
+	}
+	for fn, h := range e.cfg.CallHooks {
+		tb = append(tb, "harness hook around real function "+fn+": before="+h.Before+" after="+h.After)
 	}
 	ev := map[string]interface{}{
 		"property_id": e.cfg.Property,
